@@ -2904,10 +2904,12 @@ class SFTPClientHandler(SFTPHandler):
             limits.log(self.logger, 'Received')
 
             if limits.max_read_len:
-                self.limits.max_read_len = limits.max_read_len
+                self.limits.max_read_len = min(limits.max_read_len,
+                                               MAX_SFTP_READ_LEN)
 
             if limits.max_write_len:
-                self.limits.max_write_len = limits.max_write_len
+                self.limits.max_write_len = min(limits.max_write_len,
+                                                MAX_SFTP_WRITE_LEN)
 
     async def open(self, filename: bytes, pflags: int,
                    attrs: SFTPAttrs) -> bytes:
